@@ -83,7 +83,7 @@ func modeFor(prop string) (*histMode, error) {
 			roracle: hist.CheckMinVVExact}, nil
 	case "C04":
 		return &histMode{flavors: []string{"counter", "object", "array", "mixed"}, proto: true,
-			gen: hist.GenConfig{MinClients: 2, MaxClients: 5, MinSteps: 6, MaxSteps: 40, Inflight: true, PushOnly: true, Retry: true, Detach: true, Presence: true},
+			gen: hist.GenConfig{MinClients: 2, MaxClients: 5, MinSteps: 6, MaxSteps: 40, Inflight: true, PushOnly: true, Retry: true, Racing: true, Detach: true, Presence: true},
 			oracle: func(h *hist.History, o *hist.Outcome) []hist.Problem {
 				var ps []hist.Problem
 				for _, p := range hist.CheckLog(o) {
@@ -98,7 +98,7 @@ func modeFor(prop string) (*histMode, error) {
 			}}, nil
 	case "C05":
 		return &histMode{flavors: []string{"counter", "array", "text", "mixed"}, proto: true,
-			gen: hist.GenConfig{MinClients: 2, MaxClients: 4, MinSteps: 6, MaxSteps: 30, Retry: true, Inflight: true, LostRetry: true},
+			gen: hist.GenConfig{MinClients: 2, MaxClients: 4, MinSteps: 6, MaxSteps: 30, Retry: true, Racing: true, Inflight: true, LostRetry: true},
 			oracle: func(h *hist.History, o *hist.Outcome) []hist.Problem {
 				ps := baseOracle(h, o)
 				seen := map[string]bool{}
